@@ -62,6 +62,7 @@ def enum_shapes(width, prefix='E'):
     if width >= 2:
         out['closed'] = [V('A', 0), V('B', mx)] if width > 1 else [V('A', 0)]
         out['open'] = [V('A', 1), V('B', mx), O('UNKNOWN')]
+        out['open_middle'] = [V('A', 1), O('UNKNOWN'), V('B', mx)]
         out['closed_range'] = [V('A', 0), R('B', 1, mx - 1, [V('X', 1)] + ([V('Y', mx - 1)] if mx - 1 > 1 else []))]
         out['open_range'] = [V('A', 0), R('B', 1, mx - 1, [V('X', 1)]), O('UNKNOWN')]
         out['complete_range'] = [V('A', 0), R('B', 1, mx, [V('X', mx)])]
@@ -162,7 +163,7 @@ def f1(tier, rnd) -> List[Desc]:
 # --------------------------------------------------------------------------- F6 enums
 def f6(tier, rnd) -> List[Desc]:
     out = []
-    widths = [1, 2, 3, 7, 8, 9, 16, 24, 32, 33, 63, 64] if tier == 'quick' else list(range(1, 65))
+    widths = [1, 2, 3, 7, 8, 9, 16, 24, 32, 33, 40, 63, 64] if tier == 'quick' else list(range(1, 65))
     for w in widths:
         shapes = enum_shapes(w, 'E')
         decls = list(shapes.values())
